@@ -43,6 +43,7 @@ def check(run):
     _dt.check_float_results(run, P, [f"{IDW}:_inverse_distance_weighted_remap", f"{IDW}:_inverse_distance_weighted_remap_uxda", f"{IDW}:_inverse_distance_weighted_remap_uxds"])
     _results(run, P)
     _accessors_pass_through(run, P)
+    _dims_by_name_first(run, P)
 
 
 def _kind(run, P):
@@ -611,4 +612,36 @@ def _accessors_pass_through(run, P):
                 run.holds("F-PATH/remap-pass-through", c, where(f, r), "identity shortcut for the very same Grid object")
             else:
                 run.incomplete("F-PATH/remap-pass-through", c, where(f, r), f"a return that does not come from {impl}(...) under a guard this rule does not evaluate")
+
+
+def _dims_by_name_first(run, P):
+    """core/utils._map_dims_to_ugrid: a dimension the grid file names (source_dims_dict) keeps the element kind its NAME gives it; the length-based guess
+    (ds.sizes[dim] == grid.n_face -> n_face, ...) applies only to dimensions that are not named.  If the guess runs over every dimension it overrides the names, and on a
+    grid where two element counts coincide (n_node == n_face) node data are relabelled as face data - which the remapping then takes for its element kind."""
+    f = P.try_func("uxarray/core/utils.py:_map_dims_to_ugrid")
+    c = "uxarray/core/utils.py:_map_dims_to_ugrid:size-guess-only-for-unnamed-dims"
+    if f is None:
+        run.incomplete("F-KIND/dims-not-sizes", c, "-", "function not found")
+        return
+    dct = f.params()[1] if len(f.params()) > 1 else "_source_dims_dict"
+    found = 0
+    for loop in [x for x in ast.walk(f.node) if isinstance(x, ast.For)]:
+        stores = [st for st in ast.walk(loop) if isinstance(st, ast.Assign) and isinstance(st.targets[0], ast.Subscript) and norm(st.targets[0].value) == dct and str_const(st.value) in ("n_face", "n_node", "n_edge")]
+        if not stores:
+            continue
+        found += 1
+        it = loop.iter
+        excl = any(isinstance(x, ast.BinOp) and isinstance(x.op, (ast.BitXor, ast.Sub)) and dct in norm(x.right) for x in ast.walk(it)) or any(isinstance(x, ast.Call) and isinstance(x.func, ast.Attribute) and x.func.attr in ("difference", "symmetric_difference") and x.args and dct in norm(x.args[0]) for x in ast.walk(it))
+        var = norm(loop.target)
+        guarded = any(isinstance(g, ast.If) and isinstance(g.test, ast.Compare) and len(g.test.ops) == 1 and norm(g.test.left) == var and dct in norm(g.test.comparators[0])
+                      and ((isinstance(g.test.ops[0], ast.In) and any(isinstance(y, ast.Continue) for y in g.body)) or (isinstance(g.test.ops[0], ast.NotIn) and any(st_ in list(ast.walk(g)) for st_ in stores))) for g in ast.walk(loop))
+        if excl or guarded:
+            run.holds("F-KIND/dims-not-sizes", c, where(f, loop), "the length-based guess runs over the dimensions the grid file does not name")
+        elif norm(it) in (f"{f.params()[0]}.dims", f"{f.params()[0]}.sizes", f"list({f.params()[0]}.dims)", f"{f.params()[0]}.dims.keys()"):
+            run.violation("F-KIND/dims-not-sizes", c, where(f, loop), f"the length-based guess runs over every dimension ({norm(it)}) and overwrites the kind the grid file's dimension names give: with coinciding element counts "
+                          "node data become face data")
+        else:
+            run.incomplete("F-KIND/dims-not-sizes", c, where(f, loop), f"iteration domain {norm(it)[:50]} of the length-based guess not recognised")
+    if not found:
+        run.incomplete("F-KIND/dims-not-sizes", c, where(f), "no length-based assignment of an element dimension found")
 
